@@ -15,7 +15,7 @@ pub const C03_FAULTS: &[&str] = &[
 ];
 pub const C03_PROBES: &[&str] = &[
     "outcome_ok", "outcome_fatal", "outcome_incomplete", "outcome_stuck", "calls_after_final", "conversion_nonfinal",
-    "stream_error_sticky", "stream_stuck_full_buffer", "conversion_probe_ok", "conversion_probe_interrupted",
+    "stream_error_sticky", "stream_stuck_full_buffer", "conversion_probe_ok", "conversion_probe_interrupted", "hostile_stream_early_advance",
 ];
 
 /// Applies 1..3 structured mutations to a valid wire (record boundaries known).
@@ -265,6 +265,11 @@ pub fn c03_stream(cx: &mut Ctx) -> VResult {
     cx.nontrivial = true;
     let stuck_possible = max_nv_record(&wire[pre_len..]) > eff.saturating_sub(8).min(eff) || max_nv_record(&wire[pre_len..]) > eff;
     let mut summaries = Vec::new();
+    // how far each stream is read before the caller moves on (the same in both rounds): to its end, part of it
+    // (the switch then usually lands in the middle of a record), or not at all
+    let policies: Vec<ReadPolicy> = (0..role_streams(info.role).len()).map(|_| match cx.ch.weighted(&[4, 1, 1]) { 0 => ReadPolicy::Full, 1 => ReadPolicy::Partial, _ => ReadPolicy::Skip }).collect();
+    let all_full = policies.iter().all(|p| *p == ReadPolicy::Full);
+    if !all_full { cx.probe("hostile_stream_early_advance"); }
     for _round in 0..2 {
         let cfg = config(bufsize, mc);
         let style = calm(pick_style(cx), wire.len());
@@ -278,7 +283,7 @@ pub fn c03_stream(cx: &mut Ctx) -> VResult {
         let mut delivered = Vec::new();
         for s in 0..n {
             if d.active != Some(s) { d.select(cx, Some(s))?; }
-            d.read_phase(cx, ReadPolicy::Full, "c03_stream_prefix")?;
+            d.read_phase(cx, policies[s], "c03_stream_prefix")?;
             // drain what is buffered
             let sb = d.p.stream_buffer().len();
             d.consume(cx, sb);
@@ -304,7 +309,7 @@ pub fn c03_stream(cx: &mut Ctx) -> VResult {
             vcheck!(d.total_out_pub() == ob, "c03_output_after_final", "output grew after a fatal error");
         }
         // conversions at non-boundary states return Interrupted (checked in final_checks when not stuck)
-        if d.failed.is_some() { delivered.clear(); }
+        if d.failed.is_some() || !all_full { delivered.clear(); }
         summaries.push(format!("failed={:?} stuck={} delivered={:?} out={}", d.failed, d.stuck, delivered, hex(&d.total_out_pub())));
     }
     if !summaries[0].contains("stuck=true") && !summaries[1].contains("stuck=true") {
